@@ -5,6 +5,8 @@
 //! example account's `__check_auth` (`/repo/examples/multisig-smart-account/account/src/contract.rs`, mounted
 //! unmodified with `#[path]`).
 //!
+//! All sa_auth harnesses run with `--cbmc-args --max-field-sensitivity-array-size 128` (the 96-word argument
+//! buffers stay field-sensitive; without it the whole-check harnesses exhaust 12 GB).
 //! Profiles (see checks/reg_smartaccount.py): `sa_auth` = cap2 + bytes32 + vw24 + valdigest + aw96,
 //! `sa_auth3` = cap3 + bytes32 + vw24 + valdigest + aw96 + nc12 + nh12.
 //!   bytes32: the 32-byte signature payload is handed to the verifier as `Bytes`; Bytes W = 5, Signer W = 7,
@@ -15,12 +17,11 @@
 //!
 //! PRE-STATE (built directly in storage). NR = CAP rule slots; rule j has the id 11 + 3 j (ids are opaque to the
 //! code under test; fixed ids keep the storage keys concrete),
-//! a symbolic `kind`: 0 = stored but in no list that the call reads (a rule of some other type), 1 = listed in
+//! a `kind` (fixed by the harness' list SHAPE, or symbolic): 0 = stored but in no list that the call reads (a rule of some other type), 1 = listed in
 //! `Ids(type of context 1)`, 2 = listed in `Ids(Default)`, 3 = listed in `Ids(type of context 2)` (two-context
 //! harnesses, when the two contexts have different types). Registry invariant assumed (established by C20's
 //! harnesses): every listed id has a `Meta` whose `context_type` is the type of its list, and an id is listed
-//! once. The lists hold the listed ids in slot order (within one list a lower slot = an older rule; ids are
-//! symbolic, so this is no restriction); "newest first" is therefore descending slot order, which is the reverse
+//! once. The lists hold the listed ids in slot order (within one list a lower slot = an older rule); "newest first" is therefore descending slot order, which is the reverse
 //! list order the documentation prescribes ("iteration starts from the last-stored"). `Signers(id)` /
 //! `Policies(id)` are present or absent (absent reads as empty, as coded), contents arbitrary within the
 //! harness' bounds (duplicates allowed); `valid_until` arbitrary; ledger arbitrary.
